@@ -116,6 +116,12 @@ def check(ctx):
     ctx.rule("T6-dgram", "datagram send/receive: transient set => retry, else re-raise")
     tables = {}
     handlers = 0
+    # Classification by PARTIAL EVALUATION: for every errno constant the handler mentions (plus the ones the property names
+    # and one it does not), the function is specialised to "the socket call raised socket.error with that errno" and the
+    # feasible paths through the handler are followed: does it raise, does it set cutoff, what does it return.  Independent of
+    # the chain's spelling (if/elif/else, guard clauses, tables in locals or class attributes).
+    from ..rules import peval
+    OTHER = "errno.EPIPE"       # a real error that is neither would-block nor connection loss
     for modn, cn, tls in STREAM:
         C = ctx.cls(modn, cn)
         for meth in ("receive", "send"):
@@ -126,37 +132,67 @@ def check(ctx):
                 raise AnchorError("%s.%s: expected one `except socket.error` handler, found %d" % (cn, meth, len(hs)))
             h = hs[0]
             handlers += 1
-            arms = _arms(h)
-            if arms is None or len(arms) != 3:
-                ctx.bad("T6-class", h, "%s.%s: classification chain has %s arms" % (cn, meth, len(arms) if arms else 0),
-                        "the handler must distinguish would-block, connection loss and everything else")
-                continue
-            (t0, b0), (t1, b1), (t2, b2) = arms
-            n0, p0 = _names(f._module, t0)
-            n1, p1 = _names(f._module, t1)
-            for p in p0 + p1:
-                ctx.bad("D8", h, "%s.%s: %s" % (cn, meth, p), "a member of an errno table that is not an integer constant, or a table "
-                        "tested with == , never matches: that class of errors falls through to the re-raise arm")
-            want_block = BLOCK_TLS if tls else BLOCK_PLAIN
-            sets_cut = lambda b: _has(b, lambda x: isinstance(x, ast.Assign) and dotted(x.targets[0]) == "self.cutoff")
-            raises = lambda b: _has(b, lambda x: isinstance(x, ast.Raise))
-            ok0 = n0 == want_block and not sets_cut(b0) and not raises(b0)
-            ctx.check(ok0, "T6-class", t0, "%s.%s would-block arm: %s, no state change" % (cn, meth, sorted(n0 or [])),
-                      "would-block results must never change connection state (table must be %s)" % sorted(want_block))
-            want_loss = LOSS | ({"SSL_ERROR_EOF"} if tls else set())
-            cut_true = _has(b1, lambda x: isinstance(x, ast.Assign) and dotted(x.targets[0]) == "self.cutoff" and
-                            isinstance(x.value, ast.Constant) and x.value.value is True)
-            if meth == "receive":
-                empty = _has(b1, lambda x: isinstance(x, ast.Return) and x.value is not None and src(x.value) in ("bytes()", "b''", "''", "bytearray()"))
-            else:
-                empty = _has(b1, lambda x: isinstance(x, ast.Assign) and dotted(x.targets[0]) == "result" and isinstance(x.value, ast.Constant) and x.value.value == 0)
-            ok1 = n1 is not None and want_loss <= n1 and cut_true and empty and not raises(b1)
-            ctx.check(ok1, "T6-class", t1, "%s.%s loss arm: table %s, cutoff = True, %s, no raise" % (cn, meth, sorted(n1 or []), "returns empty" if meth == "receive" else "result = 0"),
-                      "a connection-loss error (missing from the table: %s) must mark the connection cut off and return no data instead of raising"
-                      % sorted(want_loss - (n1 or set())))
-            ok2 = bool(b2) and isinstance(b2[-1], ast.Raise) and b2[-1].exc is None and not sets_cut(b2)
+            V = FuncView(ctx, f, exc="calls")
+            exname = h.name or "ex"
+            mentioned = set()
+            for x in ast.walk(f):
+                if isinstance(x, ast.Attribute) and isinstance(x.value, ast.Name) and x.value.id in ("errno", "ssl") and x.attr.isupper():
+                    mentioned.add("%s.%s" % (x.value.id, x.attr))
+            for t_ in ast.walk(f):      # tables held elsewhere (module / class constants)
+                if isinstance(t_, ast.Compare) and len(t_.ops) == 1 and isinstance(t_.ops[0], (ast.In, ast.NotIn)):
+                    mem = _resolve_table(f._module, t_.comparators[0])
+                    for e in mem or []:
+                        d = dotted(e) or ""
+                        if d.split(".")[0] in ("errno", "ssl") and d.split(".")[-1].isupper():
+                            mentioned.add(d)
+            want_block = {("ssl." if n.startswith("SSL_") else "errno.") + n for n in (BLOCK_TLS if tls else BLOCK_PLAIN)}
+            want_loss = {("ssl." if n.startswith("SSL_") else "errno.") + n for n in (LOSS | ({"SSL_ERROR_EOF"} if tls else set()))}
+            universe = mentioned | want_block | want_loss | {OTHER}
+
+            def classify(E):
+                env = {"%s.args[0]" % exname: E, "%s.errno" % exname: E}
+                # tables referenced by name are substituted by their literal members through the module lookup
+                res = [r for r in peval(V, env, effects=True) if r[2] == "socket.error"]
+                if not res:
+                    return "unreachable", res
+                raised = [r for r in res if r[0] == "raise"]
+                cut = [r for r in res if any(e.replace(" ", "") == "self.cutoff=True" for e in r[3])]
+                if raised and len(raised) == len(res):
+                    return "raise", res
+                if raised:
+                    return "mixed", res
+                if cut and len(cut) == len(res):
+                    return "cutoff", res
+                if cut:
+                    return "mixed", res
+                return "block", res
+            klass = {E: classify(E) for E in sorted(universe)}
+            got_block = {E for E, (k, _) in klass.items() if k == "block"}
+            got_loss = {E for E, (k, _) in klass.items() if k == "cutoff"}
+            mixed = {E for E, (k, _) in klass.items() if k in ("mixed", "unreachable")}
+            for E in sorted(mixed):
+                ctx.bad("D8", h, "%s.%s: errno %s is not classified (the test on it does not fold: table member that is not an integer constant, "
+                        "`==` against a table, ...)" % (cn, meth, E.split(".")[-1]),
+                        "a member of an errno table that is not an integer constant, or a table tested with == , never matches: "
+                        "that class of errors falls through to the re-raise arm")
+            ok0 = got_block == want_block
+            ctx.check(ok0, "T6-class", h, "%s.%s would-block arm: %s, no state change" % (cn, meth, sorted(x.split(".")[-1] for x in got_block)),
+                      "would-block results must never change connection state (table must be %s)" % sorted(x.split(".")[-1] for x in want_block))
+            # what the loss arm returns: nothing received / zero bytes sent
+            empty = True
+            for E in got_loss:
+                for k_, e_, h_, eff in klass[E][1]:
+                    if k_ == "return":
+                        v = src(e_) if e_ is not None else "None"
+                        empty = empty and (v in ("bytes()", "b''", "''", "bytearray()") if meth == "receive" else v == "0")
+            ok1 = want_loss <= got_loss and empty
+            ctx.check(ok1, "T6-class", h, "%s.%s loss arm: table %s, cutoff = True, %s, no raise" % (
+                cn, meth, sorted(x.split(".")[-1] for x in got_loss), "returns empty" if meth == "receive" else "result = 0"),
+                "a connection-loss error (missing from the table: %s) must mark the connection cut off and return no data instead of raising"
+                % sorted(x.split(".")[-1] for x in want_loss - got_loss))
+            ok2 = klass[OTHER][0] == "raise" and not any("self.cutoff" in e for r in klass[OTHER][1] for e in r[3])
             ctx.check(ok2, "T6-class", h, "%s.%s: any other error re-raises" % (cn, meth), "other errors must propagate")
-            tables[(cn, meth)] = (frozenset(n0 or []), frozenset(n1 or []))
+            tables[(cn, meth)] = (frozenset(x.split(".")[-1] for x in got_block), frozenset(x.split(".")[-1] for x in got_loss))
     base = tables.get(("Client", "receive"))
     for (cn, meth), tb in tables.items():
         tls = cn.endswith("Tls")
